@@ -1014,6 +1014,14 @@ class Interp:
             if sf is not None and (self.in_spec or n.func.id in self.bm.ALWAYS_SPECIAL):
                 if not env.has(n.func.id):
                     return sf(self, n, env)
+        if isinstance(n.func, ast.Name) and n.func.id == "super" and not n.args and not env.has("super"):
+            fr = self.frames[-1]
+            a0 = fr.func.node.args
+            first = (a0.posonlyargs + a0.args)[0].arg
+            e0 = env
+            while not (first in e0.vars) and e0.parent is not None:
+                e0 = e0.parent
+            return self.bm.SuperProxy(env.lookup(first), fr.func.owner)
         f = self.eval(n.func, env)
         args = []
         for a in n.args:
@@ -1135,6 +1143,7 @@ class Interp:
             # inlined callee: inherits inline permissions of the caller, no loop specs
             contract = self.frames[-1].contract.inline_view() if self.frames[-1].contract is not None else None
         fr = Frame(f, contract)
+        fr.env = env
         self.frames.append(fr)
         self.call_depth += 1
         try:
